@@ -68,6 +68,9 @@ def render_item(it, ind, out):
         out.append("%sScenario: %s" % (ind, noisy("S", "S%d" % it["id"])))
         render_steps(it["steps"], ind + "  ", out)
     else:
+        if NOISE.get("phantom_tag"):
+            # a parametrised tag whose placeholder is no column of any Examples table: documented to be dropped from the rows
+            out.append("%s@%s" % (ind, NOISE["phantom_tag"]))
         out.append("%sScenario Outline: %s" % (ind, noisy("S", "O%d" % it["id"])))
         render_steps(it["steps"], ind + "  ", out)
         for ex in it["examples"]:
@@ -156,7 +159,7 @@ def run_program(prog, extra_formatters=None, reporters=None, config_hook=None, w
     cfg = prog["cfg"]
     noise = cfg.get("noise") or {}
     NOISE.update({"F": noise.get("feature", ""), "S": noise.get("scenario", ""), "step": noise.get("step", ""),
-                  "step_mod": noise.get("step_mod")})
+                  "step_mod": noise.get("step_mod"), "phantom_tag": noise.get("phantom_tag")})
     msg_noise = noise.get("message", "")
     log, fmt = [], []
     faults = set((h, str(k)) for h, k in cfg.get("faults", []))
